@@ -122,7 +122,7 @@ def report_oracle(ctx, pid, out):
 # ---------------------------------------------------------------------------------------------
 # T1: structuring every value that has a typed reading succeeds with a typed reading (Props/Total.lean)
 
-TOTAL_HDR = "import LspVerif.Props.Total\nimport LspVerif.Props.C04\nimport GenEnv\nimport GenBad\nopen LspVerif\n"
+TOTAL_HDR = "import LspVerif.Props.C01\nimport LspVerif.Props.C04\nimport GenEnv\nimport GenBad\nopen LspVerif\n"
 
 MAIN_REP = """import LspVerif.Driver.Rep
 import GenEnv
@@ -130,7 +130,7 @@ import GenBad
 def main : IO Unit := LspVerif.Driver.repMain Gen.env Gen.bad
 """
 
-LOCALISE = """import LspVerif.Props.Total
+LOCALISE = """import LspVerif.Props.C01
 import GenEnv
 import GenBad
 open LspVerif
@@ -138,6 +138,7 @@ def showT (t : PyTy) : String := (repr t).pretty 100000
 def main : IO Unit := do
   for t in progFailures Gen.env Gen.bad Gen.progTys do IO.println ("PROG " ++ showT t)
   for c in clsFailures Gen.env Gen.bad Gen.progTys do IO.println ("CLS " ++ c.toString)
+  for c in clsFailuresU Gen.env do IO.println ("CLSU " ++ c.toString)
 """
 
 
@@ -186,13 +187,55 @@ example : (match structTy Gen.env 30 (.cls n!"Range") (.obj [(n!"start", .obj [(
            | .ok v => rep Gen.env Gen.bad 30 (.cls n!"Range") v (.obj [(n!"start", .obj [(n!"line", .int 1), (n!"character", .int 2)]), (n!"end", .obj [(n!"line", .int 3), (n!"character", .int 4)])])
            | .error _ => false) = true := by decide +kernel
 
+/-- the table fact T2 needs about every generated class: attribute names distinct, wire names distinct, the structure and
+    the unstructure function use the same wire name, literal-defaulted attributes are always written -/
+theorem {pid}_T2_classes : clsesOKU Gen.env = true := by decide +kernel
+
+/-- **T2 on the regenerated package.**  A typed reading `v` of `j` unstructures (both calling conventions) to a `j'`
+    related to `j` by the documented null rule, and `v` reads `j'` too. -/
+theorem {pid}_unstructure_total (ty : PyTy) (j : Json) (v : PyVal) (n : Nat) (h : rep Gen.env Gen.bad n ty v j = true) :
+    (∃ j' m, unstruct Gen.env m (some ty) v = .ok j' ∧ (∃ k, nrel Gen.env k ty j j' = true) ∧ ∃ k, rep Gen.env Gen.bad k ty v j' = true) ∧
+    (∃ j' m, unstruct Gen.env m Option.none v = .ok j' ∧ (∃ k, nrel Gen.env k ty j j' = true) ∧ ∃ k, rep Gen.env Gen.bad k ty v j' = true) :=
+  T2 Gen.env Gen.bad {pid}_T2_classes h
+
+/-- **C01 / C03 on the regenerated package** (T1 ∘ T2): every JSON value with a typed reading at a checked annotation is
+    structured successfully into a typed reading of it, which unstructures successfully to the value itself up to the null rule. -/
+theorem {pid}_roundtrip (ty : PyTy) (k : Nat) (hty : lightOK Gen.env Gen.bad Gen.progTys k ty = true)
+    (j : Json) (v : PyVal) (n : Nat) (h : rep Gen.env Gen.bad n ty v j = true) :
+    ∃ v', (∃ m, structTy Gen.env m ty j = .ok v') ∧ (∃ k', rep Gen.env Gen.bad k' ty v' j = true) ∧
+      (∃ j' m, unstruct Gen.env m (some ty) v' = .ok j' ∧ ∃ k, nrel Gen.env k ty j j' = true) ∧
+      (∃ j' m, unstruct Gen.env m Option.none v' = .ok j' ∧ ∃ k, nrel Gen.env k ty j j' = true) :=
+  roundtrip Gen.env Gen.bad Gen.progTys {pid}_T1_progs {pid}_T1_classes {pid}_T2_classes ty k hty j v n h
+
+/-- **C02 on the regenerated package**: the constructor-built object (a typed reading `v` of `j`) serialises to `j'` with
+    `nrel j j'`; `j'` structures successfully into a typed reading, whose serialisation `j''` satisfies `nrel j' j''`. -/
+theorem {pid}_constructor_path (ty : PyTy) (k : Nat) (hty : lightOK Gen.env Gen.bad Gen.progTys k ty = true)
+    (j : Json) (v : PyVal) (n : Nat) (h : rep Gen.env Gen.bad n ty v j = true) :
+    ∃ j' m, unstruct Gen.env m Option.none v = .ok j' ∧ (∃ k, nrel Gen.env k ty j j' = true) ∧
+      ∃ v'' m', structTy Gen.env m' ty j' = .ok v'' ∧ (∃ k, rep Gen.env Gen.bad k ty v'' j' = true) ∧
+        ∃ j'' m'', unstruct Gen.env m'' Option.none v'' = .ok j'' ∧ ∃ k, nrel Gen.env k ty j' j'' = true :=
+  constructor_path Gen.env Gen.bad Gen.progTys {pid}_T1_progs {pid}_T1_classes {pid}_T2_classes ty k hty j v n h
+
+/-- non-vacuity (kernel evaluation, a test): the null rule at work on a concrete value — `version` absent comes back as explicit null -/
+example : (match structTy Gen.env 30 (.cls n!"OptionalVersionedTextDocumentIdentifier") (.obj [(n!"uri", .str n!"file:///a")]) with
+           | .ok v => (match unstruct Gen.env 30 Option.none v with
+             | .ok o => (match o with | .obj kvs => (match Json.lookup kvs n!"version" with | some .null => true | _ => false) | _ => false) &&
+                        nrel Gen.env 30 (.cls n!"OptionalVersionedTextDocumentIdentifier") (.obj [(n!"uri", .str n!"file:///a")]) o
+             | .error _ => false)
+           | .error _ => false) = true := by decide +kernel
+
 #print axioms {pid}_T1_progs
 #print axioms {pid}_T1_excluded_are_rejected
 #print axioms {pid}_T1_classes
 #print axioms {pid}_structure_total
 #print axioms {pid}_T1_roots
+#print axioms {pid}_T2_classes
+#print axioms {pid}_unstructure_total
+#print axioms {pid}_roundtrip
+#print axioms {pid}_constructor_path
 """
-    names = [f"{pid}_T1_progs", f"{pid}_T1_excluded_are_rejected", f"{pid}_T1_classes", f"{pid}_structure_total", f"{pid}_T1_roots"]
+    names = [f"{pid}_T1_progs", f"{pid}_T1_excluded_are_rejected", f"{pid}_T1_classes", f"{pid}_structure_total", f"{pid}_T1_roots",
+             f"{pid}_T2_classes", f"{pid}_unstructure_total", f"{pid}_roundtrip", f"{pid}_constructor_path"]
     return [[genbad], layer + [progs], [(f"{pid}T1", final)]], names
 
 
@@ -207,7 +250,7 @@ def localise_total(ctx):
         n = int(m.group(0))
         b = n.to_bytes((n.bit_length() + 7) // 8, "big")
         return '"' + b[1:].decode("utf8", "replace") + '"' if b[:1] == b"\x01" and n > 300 else m.group(0)
-    return [re.sub(r"\b\d{5,}\b", dec, l).replace("LspVerif.PyTy.", "") for l in p.stdout.splitlines() if l.startswith(("PROG", "CLS"))]
+    return [re.sub(r"\b\d{5,}\b", dec, l).replace("LspVerif.PyTy.", "") for l in p.stdout.splitlines() if l.startswith(("PROG", "CLS"))]  # CLS, CLSU
 
 
 def validity_stream(ctx, S):
@@ -221,7 +264,7 @@ def validity_stream(ctx, S):
     problems = []
     for (name, j), o in zip(vals, out):
         cnt[o] = cnt.get(o, 0) + 1
-        if o not in ("rep:true", "rep:excluded", "struct-err", "unspecified"):
+        if o not in ("rep:true nrel:true outrep:true", "rep:excluded", "struct-err", "unspecified"):
             problems.append((name, j, o))
     ctx.dist["typed_reading_of_generated_valid_values"] = cnt
     ctx.corr["evaluations"] += len(vals)
@@ -305,8 +348,8 @@ def run(ctx, pid, *, ops_fn, inst_fn=None, theorems=(), trusted=(), assumptions=
             failed = ctx.add_lean_results(res, theorems_expected={tlayers[-1][-1]: tnames})
             if failed:
                 loc = localise_total(ctx)
-                ctx.notes.append("T1: the dispatch checker rejects: " + " | ".join(loc[:8]))
-                problems.append(f"T1 ({pid}_structure_total) no longer checks on the regenerated environment; the dispatch checker rejects: "
+                ctx.notes.append("T1/T2: the table checkers reject: " + " | ".join(loc[:8]))
+                problems.append(f"T1/T2 ({pid}_structure_total / {pid}_unstructure_total / {pid}_roundtrip) no longer check on the regenerated environment; the checkers reject: "
                                 + " | ".join(l[:300] for l in loc[:6]) + " || " + failed[0].out[-600:])
         wtext, wnames = witness_module(ctx, pid)
         if wtext:
@@ -322,9 +365,9 @@ def run(ctx, pid, *, ops_fn, inst_fn=None, theorems=(), trusted=(), assumptions=
         problems += correspondence(ctx, ops)
         if total:
             vp, cnt = validity_stream(ctx, S)
-            ctx.notes.append(f"generated valid values with a typed reading in the model (hypothesis of T1): {cnt}")
+            ctx.notes.append(f"generated valid values: typed reading in the model (hypothesis of T1/T2), and T2's conclusion evaluated on the model's output (nrel, outrep): {cnt}")
             for name, j, o in vp[:3]:
-                problems.append(f"a generated metamodel-valid value of {name} has no typed reading in the model ({o}): {json.dumps(j)[:300]}")
+                problems.append(f"a generated metamodel-valid value of {name} has no typed reading in the model, or its output is not related to it by the null rule ({o}): {json.dumps(j)[:300]}")
         timing["correspondence"] = round(_t.time() - t0, 1)
         for o in ops[:: max(1, len(ops) // 3)][:3]:
             ctx.sample(o[:400])
